@@ -133,6 +133,8 @@ pub fn fixed_tree() -> TreeSpec {
         entries: vec![
             EntrySpec::File { name: "a.txt".into(), size: 10 },
             EntrySpec::File { name: "big.bin".into(), size: 70000 },
+            // large enough for (size x number of ranges that fit a 10000-byte request) to pass 2^31 and 2^32
+            EntrySpec::File { name: "huge.bin".into(), size: 3 << 20 },
             EntrySpec::File { name: "page.html".into(), size: 300 },
             EntrySpec::File { name: "empty.bin".into(), size: 0 },
             EntrySpec::File { name: "é.txt".into(), size: 64 },
@@ -145,7 +147,7 @@ pub fn fixed_tree() -> TreeSpec {
     }
 }
 
-pub const FIXED_PATHS: [&str; 22] = ["/", "/a.txt", "/big.bin", "/page.html", "/page", "/empty.bin", "/é.txt", "/noext", "/sub", "/sub/", "/sub/index.html", "/sub/x.json", "/sub/deep/y.png",
+pub const FIXED_PATHS: [&str; 23] = ["/", "/a.txt", "/big.bin", "/huge.bin", "/page.html", "/page", "/empty.bin", "/é.txt", "/noext", "/sub", "/sub/", "/sub/index.html", "/sub/x.json", "/sub/deep/y.png",
     "/noindex", "/noindex/", "/noindex/z.css", "/link.txt", "/outdir/f.txt", "/missing", "/style.css", "/script.js", "/favicon.svg"];
 
 // ---- strategies -----------------------------------------------------------------------------------
@@ -287,6 +289,9 @@ pub fn coherent_base() -> impl Strategy<Value = Base> {
         1 => ("[a-z]{0,4}", "[ -~&&[^ #]]{0,12}").prop_map(|(k, v)| Base { method: "GET".into(), target: format!("/form-get-method?{}={}", k, v), version: "HTTP/1.1".into(), headers: vec![], body: Bytes(vec![]) }),
         1 => "[ -~&&[^ #]]{0,30}".prop_map(|q| Base { method: "POST".into(), target: format!("/file-upload/initiate?{}", q), version: "HTTP/1.1".into(), headers: vec![], body: Bytes(vec![]) }),
         1 => Just(Base { method: "POST".into(), target: "/file-upload/initiate?name=a&lastModified=1&size=3".into(), version: "HTTP/1.1".into(), headers: vec![], body: Bytes(vec![]) }),
+        // hundreds to thousands of one-byte ranges on the large file (sums of sizes and lengths far beyond 32 bits, part counts in the thousands)
+        1 => (prop::sample::select(vec!["GET", "GET", "HEAD"]), 1usize..2300, 0u32..3_000_000).prop_map(|(m, k, at)| Base { method: m.into(), target: "/huge.bin".into(), version: "HTTP/1.1".into(),
+            headers: vec![("Range".into(), Bytes(format!("bytes={}", (0..k).map(|j| { let a = (at as usize + j * 7) % (3 << 20); format!("{}-{}", a, a) }).collect::<Vec<_>>().join(",")).into_bytes()))], body: Bytes(vec![]) }),
         1 => (prop::sample::select(vec!["OPTIONS", "HEAD"]), prop::sample::select(FIXED_PATHS.to_vec()), hostile_text(), hostile_text(), hostile_text()).prop_map(|(m, p, o, a, b)|
             Base { method: m.to_string(), target: p.to_string(), version: "HTTP/1.1".into(), headers: vec![("Origin".into(), o), ("Access-Control-Request-Method".into(), a), ("Access-Control-Request-Headers".into(), b)], body: Bytes(vec![]) }),
     ]
